@@ -37,6 +37,10 @@ def _work(args):
         prog = g.program(ncomps=rng.choice([1, 2]))
         prog["scan"] = lang.scan("from", 1)   # line 0 holds the header names
         members.append({"prog": prog, "cfg": {"AND": True, "noMatches": False, "keepUnmatched": False, "collecting": True, "noRun": False, "nexts": 0}})
+    # a member that is done with the file before the abort happens (its scan ends at line 1): it started, so it has its record
+    if n >= 2 and rng.random() < 0.5:
+        j = rng.choice([i for i in range(n) if i != m])
+        members[j]["prog"]["scan"] = lang.scan("one", 1)
     idents = [f"m{i}" for i in range(n)]
     texts = []
     for i, mc in enumerate(members):
